@@ -318,6 +318,10 @@ async def open_child_case(case: dict[str, Any], sc: Scenario) -> None:
     """a parent is left while a child context entered from it (in another task) is still open"""
     from asphalt.core import Context
 
+    if case.get("falsy_contexts"):
+        # contexts of a subclass whose instances are falsy (a container-like context that is empty): contexts like any other
+        Context = type("BagContext", (Context,), {"__len__": lambda self: 0})  # noqa: N806
+
     release = anyio.Event()
     child_open = anyio.Event()
     outcome: dict[str, Any] = {}
@@ -386,8 +390,8 @@ def matrix_cells() -> list[dict[str, Any]]:
         if state != "inactive" and op not in ("reenter", "closed"):
             cells.append({"kind": "cell", "state": state, "op": op, "nested": nested, "backend": backend, "ending": ending,
                           "ops": {slot: [op]}, "via": "component"})
-    for nested, explicit, backend in itertools.product([False, True], [False, True], ["asyncio", "trio"]):
-        cells.append({"kind": "open_child", "nested": nested, "explicit_parent": explicit, "backend": backend})
+    for nested, explicit, backend, falsy in itertools.product([False, True], [False, True], ["asyncio", "trio"], [False, True]):
+        cells.append({"kind": "open_child", "nested": nested, "explicit_parent": explicit, "backend": backend, "falsy_contexts": falsy})
     for nested, backend in itertools.product([False, True], ["asyncio", "trio"]):
         cells.append({"kind": "cell", "state": "inactive", "op": "all", "nested": nested, "backend": backend, "ending": "clean",
                       "never_enter": True, "ops": {"inactive": [o for o in OPS if o != "reenter"]}})
